@@ -5,6 +5,7 @@
   functional model and is decided on the implementation by the monitor (DESIGN §6 C07).
 -/
 import JS.Proofs.Scope
+import JS.Props.C15
 namespace JS.Props.C07
 open JS
 
@@ -21,6 +22,51 @@ theorem scope_restore (env : Env) (impl : FmtImpl) (cfg : Cfg) (fuel : Nat) (ins
 theorem resolve_keeps_scopes (env : Env) (ref : Str) (st : RState) :
     (resolve env ref st).2.scopes = st.scopes :=
   resolve_scopes env ref st
+
+/-- **History independence** — the statement as first given: after ANY history of operations from
+    a fresh resolver state `st₀`, every operation gives exactly the result it gives on `st₀` itself,
+    provided retrieval is stable. It is FALSE (`history_independent_counterexample`) for one reason
+    only: when the oracle has no answer for a retrieval, the observable result contains
+    `Stop.miss (.fetch n u)` where `n` is the resolver's attempt counter, which the history has
+    advanced. With an oracle that answers every retrieval (success or failure) it holds:
+    `history_independent_partial`. -/
+def history_independent_statement : Prop :=
+  ∀ (env : Env) (_ : Props.C15.StableFetch env) (impl : FmtImpl) (cfg : Cfg)
+    (fuel : Nat) (schema : Json) (st₀ : RState) (_ : Props.C15.SameWorld env st₀.store st₀ st₀)
+    (ops : List Op) (op : Op),
+    (stepOp env impl cfg fuel schema (runHist env impl cfg fuel schema st₀ ops).2 op).1
+      = (stepOp env impl cfg fuel schema st₀ op).1
+
+/-- resolve `a` (retrievable), then `b` (the oracle has no answer): attempt 1 instead of attempt 0 -/
+theorem history_independent_counterexample : ¬ history_independent_statement := by
+  intro h
+  have h1 := h Knowledge.Cex.env Knowledge.Cex.stable Knowledge.Cex.impl Knowledge.Cex.cfg 0 .null
+    (Knowledge.Cex.st true 0) (Props.C15.sameWorld_iff.2 (Knowledge.Cex.sameWorld ..))
+    [.resolve ['a']] (.resolve ['b'])
+  have h2 := congrArg Knowledge.Cex.opClock h1
+  rw [Knowledge.Cex.hi_left, Knowledge.Cex.hi_right] at h2
+  cases h2
+
+/-- **History independence.** The result of an operation does not depend on what the same
+    validator object did before — which instances it validated, whether iterations were exhausted,
+    closed early or ended in an exception, what was retrieved meanwhile: after ANY history of
+    operations from a fresh resolver state `st₀`, every operation gives exactly the result it gives
+    on `st₀` itself, provided retrieval is stable (a URI always yields the same outcome: what was
+    retrieved before is retrievable now, A-handlers) and the oracle answers every retrieval
+    (extra hypothesis `hans`; statement otherwise as given). -/
+theorem history_independent_partial (env : Env) (hf : Props.C15.StableFetch env)
+    (hans : Props.C15.FetchAnswered env) (impl : FmtImpl) (cfg : Cfg)
+    (fuel : Nat) (schema : Json) (st₀ : RState) (h₀ : Props.C15.SameWorld env st₀.store st₀ st₀)
+    (ops : List Op) (op : Op) :
+    (stepOp env impl cfg fuel schema (runHist env impl cfg fuel schema st₀ ops).2 op).1
+      = (stepOp env impl cfg fuel schema st₀ op).1 :=
+  Knowledge.hist_indep hf hans impl cfg fuel schema st₀ (Props.C15.sameWorld_iff.1 h₀) ops op
+
+/-- the resolution scope between operations is what it was before the first call -/
+theorem scope_idle (env : Env) (impl : FmtImpl) (cfg : Cfg) (fuel : Nat) (schema : Json) (st₀ : RState)
+    (ops : List Op) :
+    (runHist env impl cfg fuel schema st₀ ops).2.scopes = st₀.scopes :=
+  Knowledge.runHist_scopes env impl cfg fuel schema ops st₀
 
 /-- non-vacuity: a concrete run with a `$ref`, an `id` push and an early close -/
 example : (eval default ⟨fun _ _ => none⟩ (default : Cfg) 3 .null (.obj []) (some 1) default).st.scopes
